@@ -147,7 +147,19 @@ def _pred(x):
 
 NT_int = NewType('NT_int', int)
 
+# Names that string hints ('FwdAny', Optional['FwdObject'], ...) refer to: bound here and, identically, in props/c11.py, the
+# module whose functions pass the hints to beartype (string hints are resolved against the calling scope)
+FwdAny = Any
+FwdObject = object
+FwdInt = int
+FwdListInt = list[int]
+FwdOptional = Optional[int]
+FWD_NAMES = {'FwdAny': FwdAny, 'FwdObject': FwdObject, 'FwdInt': FwdInt, 'FwdListInt': FwdListInt, 'FwdOptional': FwdOptional}
+
 ATOMS = {
+    # strings naming an ignorable hint, a class, a subscripted hint, a union; a string naming nothing
+    'str_FwdAny': lambda: 'FwdAny', 'str_FwdObject': lambda: 'FwdObject', 'str_FwdInt': lambda: 'FwdInt', 'str_FwdListInt': lambda: 'FwdListInt',
+    'str_FwdOptional': lambda: 'FwdOptional', 'str_FwdNothing': lambda: 'FwdNothingOfThatName', 'str_expr': lambda: 'list[FwdAny] | None',
     # ordinary
     'int': lambda: int, 'str': lambda: str, 'float': lambda: float, 'bool': lambda: bool, 'NoneType': lambda: type(None),
     'None': lambda: None, 'object': lambda: object, 'list': lambda: list, 'dict': lambda: dict, 'tuple': lambda: tuple,
@@ -303,6 +315,7 @@ OBJECTS = {
 
 DEEP_ATOMS = ('deep_list_100', 'deep_list_260')
 _SHALLOW_ATOMS = [a for a in ATOMS if a not in DEEP_ATOMS]
+_STRING_ATOMS = [a for a in ATOMS if a.startswith('str_')]
 
 
 def gen(rng, depth, deep=False):
@@ -316,6 +329,9 @@ def gen(rng, depth, deep=False):
             return {'a': rng.choice(DEEP_ATOMS)}
         if r < 0.35:
             return {'a': rng.choice(['int', 'str', 'float', 'bool', 'None', 'object', 'Plain', 'list', 'NoneType'])}
+        if r < 0.42:
+            # a string hint (resolved against the calling module when the hint is used)
+            return {'a': rng.choice(_STRING_ATOMS)}
         return {'a': rng.choice(_SHALLOW_ATOMS)}
     c = rng.choice(list(CTORS))
     return {'c': c, 'k': [gen(rng, depth - 1, deep) for _ in range(CTORS[c][0])]}
